@@ -832,6 +832,48 @@ func (r *rec) nullTransp(rootFen string) {
 }
 
 // shuffle: repetition-dense histories (C10)
+// cycle3: three quiet moves of one piece of side c that bring it back to its square: a slider goes two squares
+// along an empty ray, one back, and home; a king walks a triangle. nil if there is none (legality is for the caller).
+func cycle3(rng *rand.Rand, b *board.Board, c Color) []move.Move {
+	occ := b.Colors[White] | b.Colors[Black]
+	empty := func(f, r int) bool { return f >= 0 && f < 8 && r >= 0 && r < 8 && occ&(BitBoard(1)<<uint(r*8+f)) == 0 }
+	mv := func(a, z int) move.Move { return move.From(Square(a)) | move.To(Square(z)) }
+	dirs := [][2]int{{1, 0}, {-1, 0}, {0, 1}, {0, -1}, {1, 1}, {1, -1}, {-1, 1}, {-1, -1}}
+	var out [][]move.Move
+	for sq := 0; sq < 64; sq++ {
+		if b.Colors[c]&(BitBoard(1)<<uint(sq)) == 0 {
+			continue
+		}
+		f, rk := sq%8, sq/8
+		switch b.SquaresToPiece[sq] {
+		case Queen, Rook, Bishop:
+			for i, d := range dirs {
+				if (b.SquaresToPiece[sq] == Rook && i >= 4) || (b.SquaresToPiece[sq] == Bishop && i < 4) {
+					continue
+				}
+				if empty(f+d[0], rk+d[1]) && empty(f+2*d[0], rk+2*d[1]) {
+					s1, s2 := (rk+d[1])*8+f+d[0], (rk+2*d[1])*8+f+2*d[0]
+					out = append(out, []move.Move{mv(sq, s2), mv(s2, s1), mv(s1, sq)})
+				}
+			}
+		case King:
+			for _, d := range dirs[:4] {
+				for _, e := range dirs[4:] {
+					// sq -> sq+d -> sq+e -> sq needs sq+d adjacent to sq+e
+					if empty(f+d[0], rk+d[1]) && empty(f+e[0], rk+e[1]) && abs(d[0]-e[0]) <= 1 && abs(d[1]-e[1]) <= 1 {
+						s1, s2 := (rk+d[1])*8+f+d[0], (rk+e[1])*8+f+e[0]
+						out = append(out, []move.Move{mv(sq, s1), mv(s1, s2), mv(s2, sq)})
+					}
+				}
+			}
+		}
+	}
+	if len(out) == 0 {
+		return nil
+	}
+	return out[rng.Intn(len(out))]
+}
+
 func (r *rec) shuffle(corpus []string, plies int) {
 	for !r.full() {
 		var b *board.Board
@@ -854,7 +896,29 @@ func (r *rec) shuffle(corpus []string, plies int) {
 			rv board.Reverse
 		}
 		var stack []played
+		// triangulation: both sides bring a piece back to its square in THREE moves, so that the very first
+		// position recurs after 6 plies (and, with one more there-and-back, after 10): recurrences that plain
+		// oscillation (multiples of 4 plies) never produces
+		var plan []move.Move
+		if forced == 0 && r.rng.Intn(3) == 0 {
+			w3 := cycle3(r.rng, b, b.STM)
+			b3 := cycle3(r.rng, b, b.STM.Flip())
+			if w3 != nil && b3 != nil {
+				plan = []move.Move{w3[0], b3[0], w3[1], b3[1], w3[2], b3[2]}
+				if r.rng.Intn(2) == 0 {
+					plan = append(plan, w3[0], b3[0], move.From(w3[0].To())|move.To(w3[0].From()), move.From(b3[0].To())|move.To(b3[0].From()))
+				}
+			}
+		}
 		for ply := 0; ply < plies && !r.full(); ply++ {
+			if ply < len(plan) {
+				if lm := proj.Playable(b, r.ms); contains(lm, plan[ply]) {
+					undoable = append(undoable, plan[ply])
+					stack = append(stack, played{plan[ply], r.make(b, plan[ply], true)})
+					continue
+				}
+				plan = nil
+			}
 			if takeBack && len(stack) >= 2 && r.rng.Intn(6) == 0 {
 				for k := 1 + r.rng.Intn(min(6, len(stack))); k > 0; k-- {
 					top := stack[len(stack)-1]
